@@ -25,7 +25,8 @@ const (
 	kCounterVlan = 2 // counter sample: one VLAN counters record
 	kUnknown     = 3 // sample of an unknown format: skipped by its length
 	kVendor      = 4 // sample with a non-zero enterprise number: skipped by its length
-	nKinds       = 5
+	kCounterUnk  = 5 // counter sample: one unknown or vendor-specific record (skipped) then VLAN counters
+	nKinds       = 6
 )
 
 type verifSample struct {
@@ -54,8 +55,16 @@ func verifArbSample(kind int) verifSample {
 			verifAssume(verifAll(s.urFormat != SFDataRawHeader, s.urFormat != SFDataExtSwitch, s.urFormat != SFDataExtRouter))
 			s.body = verifNondetBytes(4 * verifCase(3))
 		}
-	case kCounterVlan:
+	case kCounterVlan, kCounterUnk:
 		s.vlan = VlanCounters{verifNondetU32(), verifNondetU64(), verifNondetU32(), verifNondetU32(), verifNondetU32(), verifNondetU32()}
+		if kind == kCounterUnk {
+			// any record tag other than the six standard (enterprise 0) counter formats: unknown
+			// standard formats and every vendor-specific one, whatever its low 12 bits are
+			s.urFormat = verifNondetU32()
+			verifAssume(verifAll(s.urFormat != SFGenericInterfaceCounters, s.urFormat != SFEthernetInterfaceCounters, s.urFormat != SFTokenRingInterfaceCounters,
+				s.urFormat != SF100BaseVGInterfaceCounters, s.urFormat != SFVLANCounters, s.urFormat != SFProcessorCounters))
+			s.body = verifNondetBytes(4 * verifCase(3))
+		}
 	case kUnknown:
 		s.format = verifNondetU32()
 		verifAssume(verifAll(s.format>>12 == 0, s.format != DataFlowSample, s.format != DataCounterSample))
@@ -72,7 +81,7 @@ func (s verifSample) typeWord() uint32 {
 	switch s.kind {
 	case kFlowSwitch, kFlowUnkRec:
 		return DataFlowSample
-	case kCounterVlan:
+	case kCounterVlan, kCounterUnk:
 		return DataCounterSample
 	}
 	return s.format
@@ -86,6 +95,8 @@ func (s verifSample) bodyLen() int {
 		return 32 + 8 + len(s.body) + 8 + 16
 	case kCounterVlan:
 		return 12 + 8 + 28
+	case kCounterUnk:
+		return 12 + 8 + len(s.body) + 8 + 28
 	}
 	return len(s.body)
 }
@@ -120,13 +131,22 @@ func (s verifSample) write(w *verifW) {
 		for i := 0; i < 4; i++ {
 			w.u32(s.sw[i])
 		}
-	case kCounterVlan:
+	case kCounterVlan, kCounterUnk:
 		w.u32(s.seq)
 		w.u8(s.srcType)
 		w.u8(s.srcIdx[0])
 		w.u8(s.srcIdx[1])
 		w.u8(s.srcIdx[2])
-		w.u32(1)
+		if s.kind == kCounterUnk {
+			w.u32(2)
+			w.u32(s.urFormat)
+			w.u32(uint32(len(s.body)))
+			for i := range s.body {
+				w.u8(s.body[i])
+			}
+		} else {
+			w.u32(1)
+		}
 		w.u32(SFVLANCounters)
 		w.u32(28)
 		w.u32(s.vlan.ID)
@@ -161,9 +181,13 @@ func verifCheckCounter(x Counter, s verifSample) {
 	cs, ok := x.(*CounterSample)
 	verifAssert(ok, "counter sample: Go type")
 	idx := uint32(s.srcIdx[0])<<16 | uint32(s.srcIdx[1])<<8 | uint32(s.srcIdx[2])
-	verifAssert(verifAll(cs.SequenceNo == s.seq, cs.SourceIDType == s.srcType, cs.SourceIDIdx == idx, cs.RecordsNo == 1), "counter sample: header fields")
+	want := uint32(1)
+	if s.kind == kCounterUnk {
+		want = 2
+	}
+	verifAssert(verifAll(cs.SequenceNo == s.seq, cs.SourceIDType == s.srcType, cs.SourceIDIdx == idx, cs.RecordsNo == want), "counter sample: header fields")
 	v, ok2 := cs.Records["Vlan"].(*VlanCounters)
-	verifAssert(verifAll(ok2, len(cs.Records) == 1), "counter sample: VLAN record present")
+	verifAssert(verifAll(ok2, len(cs.Records) == 1), "counter sample: VLAN record present, and only supported records are kept (an unknown or vendor-specific record before it is skipped by its length)")
 	verifAssert(*v == s.vlan, "counter sample: VLAN counters")
 }
 
@@ -227,7 +251,7 @@ func verifExpect(d *SFDatagram, ss []verifSample, filtered func(verifSample) boo
 			verifAssert(fi < len(d.Samples), "every flow sample is returned")
 			verifCheckFlow(d.Samples[fi], s)
 			fi++
-		case kCounterVlan:
+		case kCounterVlan, kCounterUnk:
 			verifAssert(ci < len(d.Counters), "every counter sample is returned")
 			verifCheckCounter(d.Counters[ci], s)
 			ci++
@@ -236,7 +260,7 @@ func verifExpect(d *SFDatagram, ss []verifSample, filtered func(verifSample) boo
 	verifAssert(verifAll(fi == len(d.Samples), ci == len(d.Counters)), "nothing else is returned")
 }
 
-// two samples: their kinds are the split (25 combinations); further samples (param) fork
+// two samples: their kinds are the split (36 combinations); further samples (param) fork
 func verifSamples() []verifSample {
 	n := verifParam("samples", 2)
 	sp := verifSplit(nKinds * nKinds)
